@@ -16,6 +16,7 @@
 -/
 import BB.Model.Describe
 import BB.Proofs.Basic
+import BB.Proofs.Heap
 
 namespace BB.C08
 open BB
@@ -87,5 +88,24 @@ theorem attach_on_out (s : Sequence) (x : Chan × Element.ChOut) (y : Chan × Ch
   split at h
   · cases h; exact ⟨rfl, rfl⟩
   · cases h
+
+/-! ### the reference level (BB.Model.Heap): read-only calls write nothing that existed -/
+
+open BB.Heap in
+/-- a read-only call — a program that may allocate, write what it allocated itself and fill
+    validation caches (`forge` deep-copies the element store and edits the copy) — leaves every
+    user-held object, its own receiver included, exactly as it was -/
+theorem heap_query_frame (st : State) (hi : Inv st) (x : Addr) (p : Prog Unit) (y : Addr)
+    (cy : Cell) (hy : st.heap[y]? = some cy) (n : Nat) :
+    unfold n (st.query x p).heap y = unfold n st.heap y := query_frame st hi x p y cy hy n
+
+open BB.Heap in
+/-- after any history, any interleaving of read-only calls on any objects leaves everything
+    observable of every user-held object unchanged -/
+theorem heap_readonly (hist later : List Call) (ty : String) (y : Addr)
+    (hy : (ty, y) ∈ (hist.foldl State.call {}).vars)
+    (hro : ∀ c ∈ later, ∃ t p, c = Call.query t p) (n : Nat) :
+    unfold n (later.foldl State.call (hist.foldl State.call {})).heap y = unfold n (hist.foldl State.call {}).heap y :=
+  readonly_unobservable hist later ty y hy hro n
 
 end BB.C08
